@@ -237,7 +237,7 @@ class Node(xml.dom.Node):
         if oldChild.previousSibling is not None:
             oldChild.previousSibling.nextSibling = oldChild.nextSibling
         oldChild.nextSibling = oldChild.previousSibling = None
-        if self.ownerDocument:
+        if self.ownerDocument and oldChild.nodeType == Node.ELEMENT_NODE:
             self.ownerDocument.remove_from_caches(oldChild)
         oldChild.parentNode = None
         return oldChild
